@@ -69,11 +69,24 @@ def _cvc5(smt2: str, timeout_s: int):
         p = subprocess.run(["/usr/bin/cvc5", "--tlimit=%d" % (timeout_s * 1000), name],
                            capture_output=True, text=True, timeout=timeout_s + 5)
         out = p.stdout.strip().splitlines()
+        if os.environ.get("PYVC_CVC5_DEBUG") and (not out or out[0] not in ("sat", "unsat")):
+            import shutil
+            shutil.copy(name, "/tmp/cvc5_debug.smt2")
+            open("/tmp/cvc5_debug.out", "w").write(p.stdout + p.stderr)
         return out[0] if out else "unknown"
     except Exception:
         return "unknown"
     finally:
         os.unlink(name)
+
+
+# thorough tier: every `unsat` of z3 (final VCs and pruned branches alike) is re-asked to cvc5; a `sat` answer is a solver
+# disagreement and makes the run a checker error (the verdict of neither solver is believed)
+CC = {"agree": 0, "cvc5_unknown": 0, "disagree": [], "seconds": 0.0}
+
+
+def _crosscheck_on():
+    return os.environ.get("PYVC_TIER") == "thorough" and os.environ.get("PYVC_NO_CROSSCHECK") != "1"
 
 
 class Stats:
@@ -99,6 +112,16 @@ def solve(assertions, timeout_ms=DEFAULT_TIMEOUT_MS, stats=None, want_model=True
     if r == z3.sat:
         return "sat", (s.model() if want_model else None)
     if r == z3.unsat:
+        if use_cvc5 and _crosscheck_on():
+            t = time.time()
+            out = _cvc5(s.to_smt2(), 10)
+            CC["seconds"] += time.time() - t
+            if out == "unsat":
+                CC["agree"] += 1
+            elif out == "sat":
+                CC["disagree"].append(s.to_smt2()[:2000])
+            else:
+                CC["cvc5_unknown"] += 1
         return "unsat", None
     if use_cvc5:
         t = time.time()
@@ -181,7 +204,7 @@ class Z3Alg:
         a = self._num(a)
         if z3.is_int(a):
             a = z3.ToReal(a)
-        r = self.ctx.fresh("sqrt", "real")
+        r = self.ctx.fresh("sqrt_v", "real")
         self.ctx.assume(z3.And(r.v >= 0, r.v * r.v == a), silent=True)
         return r.v
 
